@@ -776,6 +776,12 @@ type RoundtripObs struct {
 	Log        string
 	Snap       *Snapshot // module state of the fresh application right after InitChain
 	SameExport bool      // both modules' ExportGenesis JSON identical before and after
+	Probes     []ProbeObs // oracle transactions delivered in the first block of the restarted chain
+}
+
+type ProbeObs struct {
+	Msg   Msg
+	Class string
 }
 
 func (e *Exec) moduleExports(c *Chain, ctx sdk.Context) (string, string) {
@@ -837,6 +843,33 @@ func (e *Exec) Roundtrip() (ro *RoundtripObs) {
 		ro.Log = "settlement before: " + s1 + "\nsettlement after: " + s2 + "\noracle before: " + o1 + "\noracle after: " + o2
 	}
 	ro.Class = "ok"
+	// the first block of the restarted chain: prevotes of validator 0 for the round of that block, for the round before
+	// and for the round after it.  Whatever the alignment of the restart height with the rounds, the chain must treat
+	// them like an uninterrupted chain would at that height.
+	if len(e.H.Genesis.Powers) > 0 {
+		func() {
+			defer func() {
+				if r := recover(); r != nil {
+					ro.Log += fmt.Sprint("restart block: ", r)
+				}
+			}()
+			if pi := c2.Begin(); pi != nil {
+				ro.Log += "restart begin: " + pi.Msg
+				return
+			}
+			p := int64(e.H.Genesis.VotePeriod)
+			h := c2.Height
+			start := h - h%(2*p)
+			for _, rid := range []int64{start, start + 2*p, start - 2*p} {
+				if rid < 0 {
+					continue
+				}
+				m := Msg{Kind: "prevote", Feeder: 0, Val: 0, Commit: "C0FFEE", Round: uint64(rid)}
+				r := c2.Deliver(TxSpec{Msgs: []sdk.Msg{e2.toSdkMsg(m)}, Gas: 300000})
+				ro.Probes = append(ro.Probes, ProbeObs{Msg: m, Class: r.Class()})
+			}
+		}()
+	}
 	return ro
 }
 
